@@ -587,7 +587,7 @@ func c05NeighbourHistory(c *Ctx) {
 func init() {
 	register(&Prop{
 		ID: "C05",
-		Rule: "suites = every advertised name, grammar-generated suite strings the parser accepts, and hand-built configurations (3 hashes x digits 4..10 x 32 field subsets x formats x password hashes x suite texts '', a name, 300 bytes) through NewSuite / bare SuiteConfig / RawSuite value; inputs admissible with boundary lengths (challenge min..128, session nil/0..128); each GenerateOCRA result compared with an independent RFC 6287 model, then repeated 3x with arbitrary content in unselected fields; " +
+		Rule: "suites = every advertised name, grammar-generated suite strings the parser accepts, and hand-built configurations (3 hashes x digits 4..10 x 32 field subsets x formats x password hashes x suite texts '', a name, 300 bytes) through NewSuite / bare SuiteConfig / RawSuite value; inputs admissible with boundary lengths (challenge min..128, session nil/0..128); each GenerateOCRA result compared with an independent RFC 6287 model, then repeated 3x with arbitrary content in unselected fields; one-goroutine histories: suite spellings, neighbouring keys, and inputs whose unpadded concatenation is the same byte string cut at other field boundaries (observed.recut_history_calls); " +
 			"distinct_nontrivial counts distinct (key, route, suite, input) tuples whose exact code was compared",
 		Run: func(c *Ctx) {
 			c05EarlyHistories(c)
@@ -597,6 +597,7 @@ func init() {
 			checkOCRAMessages(c, b.keep)
 			runFmtStage(c, true, 4, c.N(20000, 1000000))
 			c05NeighbourHistory(c)
+			c05RecutHistory(c)
 		},
 		Replay: func(c *Ctx, kind string, raw json.RawMessage) error {
 			switch kind {
@@ -614,4 +615,90 @@ func init() {
 			return fmt.Errorf("unknown kind %q", kind)
 		},
 	})
+}
+
+// recutInputs: inputs whose selected fields, written one after the other WITHOUT padding, give the same byte string
+// as base but cut at other places: the challenge takes j more (or fewer) bytes and the session correspondingly fewer
+// (or more), the fixed-width fields between and around them (counter, password, timestamp) keep their widths and take
+// the bytes that now fall into their places. RFC 6287 pads the challenge and the session to 128 bytes each, so these are
+// different messages with different codes - but anything that identifies "the same input" by the unpadded
+// concatenation (a memo key without separators or lengths) confuses them.
+func recutInputs(s ref.Suite, base ref.Input) []ref.Input {
+	if !s.Q || !s.S {
+		return nil
+	}
+	var w []byte
+	if s.C {
+		w = append(w, base.Counter...)
+	}
+	w = append(w, base.Challenge...)
+	if s.P {
+		w = append(w, base.Password...)
+	}
+	w = append(w, base.Session...)
+	if s.T {
+		w = append(w, base.Timestamp...)
+	}
+	min := 8
+	switch s.Challenge {
+	case ref.QN10, ref.QA10, ref.QH10:
+		min = 10
+	}
+	k, m := len(base.Challenge), len(base.Session)
+	var out []ref.Input
+	for _, k2 := range []int{min, min + 1, k - 1, k + 1, k - 8, k + 8, k + m, k + m - 1, (k + m) / 2, 128} {
+		m2 := k + m - k2
+		if k2 < min || k2 > 128 || m2 < 0 || m2 > 128 || k2 == k {
+			continue
+		}
+		var in ref.Input
+		pos := 0
+		take := func(n int) []byte { b := append([]byte{}, w[pos:pos+n]...); pos += n; return b }
+		if s.C {
+			in.Counter = take(8)
+		}
+		in.Challenge = take(k2)
+		if s.P {
+			in.Password = take(len(base.Password))
+		}
+		in.Session = take(m2)
+		if s.T {
+			in.Timestamp = take(8)
+		}
+		out = append(out, in)
+	}
+	return out
+}
+
+var recutSuites = []string{"OCRA-1:HOTP-SHA1-6:QN08-S", "OCRA-1:HOTP-SHA1-6:QN08-S-T1M", "OCRA-1:HOTP-SHA256-8:C-QA10-PSHA1-S064", "OCRA-1:HOTP-SHA512-10:QH10-PSHA256-S-T2H", "OCRA-1:HOTP-SHA256-7:C-QN08-S128"}
+
+// c05RecutHistory: one goroutine, one secret and suite; base input, a re-cut of it, the base again (recutInputs).
+func c05RecutHistory(c *Ctx) {
+	rng := c.RNG.Fork(513)
+	for rep := 0; rep < c.N(4, 40); rep++ {
+		for i, name := range recutSuites {
+			m, ok := ref.ParseSuiteName(name)
+			if !ok {
+				continue
+			}
+			key := rng.Bytes(20)
+			base := admissibleInput(rng, m, 5+6*5) // lengths drawn at random inside the admissible range
+			base.Challenge = rng.Bytes(12 + rng.Intn(60))
+			base.Session = rng.Bytes(1 + rng.Intn(60))
+			call := func(in ref.Input) {
+				judgeOCRA(c, ocraCase{KeyHex: hexs(key), Secret: ref.Base32EncodeNoPad(key), Via: []string{viaRaw, viaNewSuite}[(i+rep)%2], Suite: func() ref.Suite {
+					if (i+rep)%2 == 0 {
+						return ref.Suite{Raw: name}
+					}
+					return m
+				}(), Input: inputToJ(in), Note: "re-cut history"})
+				c.R.Count("recut_history_calls", 1)
+			}
+			for _, v := range recutInputs(m, base) {
+				call(base)
+				call(v)
+			}
+			call(base)
+		}
+	}
 }
